@@ -219,9 +219,29 @@ PURE_STDLIB = {
     'defaultdict': lambda it, f=None: _defaultdict(f), 'collections.defaultdict': lambda it, f=None: _defaultdict(f),
     'OrderedDict': lambda it, *a: dict(*a), 'collections.OrderedDict': lambda it, *a: dict(*a),
     'functools.partial': lambda it, f, *a, **k: _partial(it, f, a, k), 'partial': lambda it, f, *a, **k: _partial(it, f, a, k),
+    'functools.reduce': lambda it, f, seq, *init: _reduce(f, seq, init), 'reduce': lambda it, f, seq, *init: _reduce(f, seq, init),
+    'itertools.product': lambda it, *seqs, **k: [tuple(x) for x in __import__('itertools').product(*[list(s_) for s_ in seqs], **k)],
+    'itertools.islice': lambda it, seq, *a: list(__import__('itertools').islice(iter(seq), *a)),
+    'operator.attrgetter': lambda it, name: (lambda o: it._getattr(o, name, name)),
     'operator.itemgetter': lambda it, *ks: ((lambda o: o[ks[0]]) if len(ks) == 1 else (lambda o: tuple(o[k] for k in ks))),
     'itertools.chain': lambda it, *seqs: [x for s_ in seqs for x in s_],
 }
+
+
+def _reduce(f, seq, init):
+    if not callable(f):
+        raise AnalysisError('interpreter: functools.reduce with something that is not a function of the analysed code')
+    it_ = iter(seq)
+    if init:
+        acc = init[0]
+    else:
+        try:
+            acc = next(it_)
+        except StopIteration:
+            raise Raised('TypeError', None)
+    for x in it_:
+        acc = f(acc, x)
+    return acc
 
 
 def _defaultdict(f):
@@ -880,6 +900,10 @@ class Interp:
                 if callable(f):
                     return f(*args, **kwargs)
             g_ = self._global(n)
+            if g_ is not None and g_[0] == 'value':
+                v_ = self.ev(e.func, env)           # a module-level name bound to a callable value (functools.partial(...), a lambda, an alias of a function)
+                if isinstance(v_, Closure) or (callable(v_) and not isinstance(v_, (ClassRef, Obj))):
+                    return v_(*args, **kwargs)
             if g_ is not None and g_[0] == 'func':
                 saved = self.module
                 self.module = g_[2]
@@ -993,6 +1017,8 @@ class Interp:
             return f(*args, **kwargs)
         if isinstance(f, ClassRef) and callable(self.stubs.get(f.name)):
             return self.stubs[f.name](self, *args, **kwargs)           # reached through a value (getattr(sa, 'nullsfirst')) instead of its dotted name
+        if isinstance(f, ClassRef) and not f.name.split('.')[-1][:1].isupper():
+            raise AnalysisError(f'interpreter: call of the library function `{f.name}` is not modelled')
         if isinstance(f, ClassRef):
             # constructor of a repository class: a stand-in object with the keyword arguments as attributes
             self.trace.append((f.name, args, kwargs))
